@@ -219,7 +219,10 @@ def sum_ge1(counts, pc, facts):
     c = counts
     if isinstance(c, _A) and c.fn == "store" and is_const(c.args[2]) and const_of(c.args[2]) >= 1:
         return True
-    if isinstance(c, _A) and c.fn.startswith("rng:"):
+    def _drawn(t):
+        # counts drawn directly, or chosen between two ways of drawing them (binomial below a size threshold, Poisson above)
+        return isinstance(t, _A) and (t.fn.startswith("rng:") or (t.fn == "ite" and len(t.args) == 3 and _drawn(t.args[1]) and _drawn(t.args[2])))
+    if _drawn(c):
         s = _A("sum", (c,))
         z = cmp0("eq", to_poly(s))
         for cond, taken in pc:
@@ -347,6 +350,13 @@ def dynamic_method(ctx, chk, rule="R11.6", classes=None):
             inst = "%s:smoothing=%s,strat=%s" % (cls.split(".")[-1], smoothing, strat)
             vals = {}
             for o in returns(outs):
+                if isinstance(o.value, App) and o.value.fn == "ite":
+                    # the method returned as a conditional expression: one case per arm, the arm's condition joining the path condition
+                    from .c09 import ite_cases
+                    from types import SimpleNamespace
+                    for pc_, v_ in ite_cases(o.pc, o.value):
+                        vals.setdefault(show(v_), []).append(SimpleNamespace(pc=list(pc_), value=v_))
+                    continue
                 vals.setdefault(show(o.value), []).append(o)
             force_repl = (smoothing and cls == SCORES) or (strat == "by_group" and cls == GROUP)
             if force_repl:
